@@ -46,6 +46,7 @@ pub const FAMILIES: &[Family] = &[
     Family { name: "q_spmc", runtime: false, max_steps: 400_000, run: queues::run_spmc },
     Family { name: "q_list", runtime: false, max_steps: 400_000, run: queues::run_list },
     Family { name: "spawn", runtime: true, max_steps: 400_000, run: spawn::run },
+    Family { name: "sbtest", runtime: true, max_steps: 100_000, run: run_sbtest },
 ];
 
 pub fn lookup(name: &str) -> Option<&'static Family> {
@@ -213,4 +214,29 @@ pub const PROPS: &[Prop] = &[
 
 pub fn prop(id: &str) -> Option<&'static Prop> {
     PROPS.iter().find(|p| p.id == id)
+}
+
+/// self test of the store buffering model (no property): the store buffering litmus test on
+/// two of may's shim atomics. "both-zero" must be reachable with weak = 1 and never with 0
+pub fn run_sbtest(case: &Case) -> Outcome {
+    use may::verif::atomic::{AtomicUsize, Ordering};
+    use std::sync::Arc;
+    let mut out = Outcome::new();
+    let x = Arc::new((AtomicUsize::new(0), AtomicUsize::new(0)));
+    let fenced = case.cfg(0) == 1;
+    let (x1, x2) = (x.clone(), x.clone());
+    let a = crate::sched::vspawn("a", move || {
+        x1.0.store(1, if fenced { Ordering::SeqCst } else { Ordering::Release });
+        x1.1.load(Ordering::Acquire)
+    });
+    let b = crate::sched::vspawn("b", move || {
+        x2.1.store(1, if fenced { Ordering::SeqCst } else { Ordering::Release });
+        x2.0.load(Ordering::Acquire)
+    });
+    let (r1, r2) = (a.join().ok().unwrap(), b.join().ok().unwrap());
+    if r1 == 0 && r2 == 0 {
+        out.fail("both-zero", String::new());
+    }
+    out.nontrivial = true;
+    out
 }
